@@ -10,7 +10,7 @@ from .wfgen import WModel
 from .world import World
 from .world_scenario import WorldScenario
 
-SUBMIT_EXE = {"slurm": "sbatch", "sge": "qsub", "lsf": "bsub"}
+SUBMIT_EXE = {"slurm": "sbatch", "sge": "qsub", "lsf": "bsub", "local": "enqueue_task"}
 
 
 class FaultEnumScenario(WorldScenario):
@@ -20,12 +20,14 @@ class FaultEnumScenario(WorldScenario):
         """Interruption class used in violation signatures (stable under minimisation)."""
         if "cmd_faults" in fault:
             exe, k, kind = fault["cmd_faults"][0]
+            if exe == "sock":
+                return f"reply_{kind}:{fault.get('what', 'query')}"
             what = "submit" if exe == SUBMIT_EXE[backend] else "query"
             return f"cmd_fail:{kind}:{what}"
         if "intr_at" in fault:
             k = fault["intr_at"]
             kind = seams[k - 1][0] if k - 1 < len(seams) else "?"
-            return "ctrl_c_in_save" if kind.startswith("fs:") and seams[k - 1][2] else "ctrl_c"
+            return "ctrl_c_in_save" if seams[k - 1][2] else "ctrl_c"
         if "io_fault" in fault:
             k = fault["io_fault"][0]
             return "io_error_in_save" if seams[k - 1][2] else "io_error"
@@ -33,6 +35,10 @@ class FaultEnumScenario(WorldScenario):
             k, when = fault["kill_at"]
             kind, detail, is_state = seams[k - 1]
             if when == "after":
+                if kind == "sock:send":
+                    if is_state:
+                        return "kill:K2"
+                    return "kill:K3" if "enqueue_task" in detail else "kill:after_query"
                 return "kill:K3" if kind == "cmd:" + SUBMIT_EXE[backend] else "kill:after_query"
             if is_state:
                 return "kill:K2"
@@ -53,7 +59,7 @@ class FaultEnumScenario(WorldScenario):
         backend = self.knobs["backend"]
         facets = dict(interruption=fault_class)
         # K3: the scheduler accepted a job whose id gwf cannot know: exempt that target from "no duplicate"
-        if fault_class == "kill:K3" and res.accepted:
+        if fault_class in ("kill:K3", "reply_eof:submit", "reply_rst:submit", "reply_garbage:submit") and res.accepted:
             name, jid, deps = res.accepted[-1]
             w.k3_lost.add(name)
             w.orphans = getattr(w, "orphans", set()) | {jid}
@@ -158,10 +164,20 @@ class FaultEnumScenario(WorldScenario):
     def enumerate_faults(self, seams):
         faults = []
         cmd_index = {}
+        n_reply = 0
         for i, (kind, detail, is_state) in enumerate(seams, start=1):
             faults.append({"kill_at": [i, "before"]})
             faults.append({"intr_at": i})
-            if kind.startswith("cmd:"):
+            if kind == "sock:send":
+                faults.append({"kill_at": [i, "after"]})
+                if "enqueue_task" in detail or "get_task_states" in detail:
+                    n_reply += 1
+                    what = "submit" if "enqueue_task" in detail else "query"
+                    for fk in ("garbage", "eof", "rst"):
+                        faults.append({"cmd_faults": [["sock", n_reply, fk]], "what": what})
+            elif kind == "sock:connect":
+                pass
+            elif kind.startswith("cmd:"):
                 exe = kind[4:]
                 cmd_index[exe] = cmd_index.get(exe, 0) + 1
                 for fk in ("F1", "F2", "F3"):
@@ -210,14 +226,16 @@ class FaultEnumScenario(WorldScenario):
             mark = len(t0.events)
             self.apply(w0, run_op)
             seams = [(kw["kind"], kw["detail"], "-backend-tracked.json" in kw["detail"]
-                      or "spec-hashes.json" in kw["detail"])
+                      or "spec-hashes.json" in kw["detail"]
+                      or (kw["kind"] == "sock:send" and '"close"' in kw["detail"]))
                      for seq, kind, kw in t0.events[mark:] if kind == "seam"]
             if w0.pending_violation:
                 self.ops = pre + [run_op]
                 self.violation = w0.pending_violation
                 self.trace = t0
                 return self
-            n_accept = sum(1 for k, d, s in seams if k == "cmd:" + SUBMIT_EXE[self.knobs["backend"]])
+            n_accept = sum(1 for k, d, s in seams if k == "cmd:" + SUBMIT_EXE[self.knobs["backend"]]
+                           or (k == "sock:send" and "enqueue_task" in d))
         # 2. enumerate the fault points of that run
         faults = self.enumerate_faults(seams)
         self.extra["fault_points"] = len(faults)
